@@ -32,6 +32,12 @@ CHECKS["C04"] = ("metamorphic merge-the-addends relation + respondent-level sign
 CHECKS["C06"] = ("metamorphic relation: partition k of a 3-D / multi-cube response == the 2-D (1-D) analysis of the survey restricted to table element k (Hypothesis)",
     "Generated-input search: 3-D cubes with CAT (missing categories anywhere) / MR / CA-items table dimensions crossed with all row x column pairings and random transforms; for each valid table element the respondents are restricted, re-encoded as a 2-D cube and every public output compared; tabbook, CA-as-0th and numeric-summary CubeSets compared with their constituent analyses. One defect found and fixed (3-D column index baseline).",
     "Ties the 3-D / CubeSet paths to the 2-D path, which C01-C03/C11-C16 tie to respondents. CA categories as table dimension and single-column-filter augmentation are not generated.", "6 C06")
+CHECKS["C10"] = ("metamorphic relation: re-encode the survey with dimensions exchanged and transforms mirrored; paired outputs must be transposes / twins (Hypothesis)",
+    "Generated-input search over all A x B pairings (except numeric arrays), with insertions, differences, hide, prune and mirrored orders: 23 direction-free outputs, 9 row/column matrix twins, 17 vector/scalar twins, table base/margin, orders and masks of the two runs are compared. Found the share-of-sum denominators defect (fixed).",
+    "Both runs come from the library; independence comes from re-encoding the data in the other axis order so that every row-path is checked against the column-path. Both-categorical-date population outputs excluded.", "6 C10")
+CHECKS["C15"] = ("respondent-level sums vs. row / column / total share over base-cell totals, incl. inserted rows, columns and intersections (Hypothesis)",
+    "Generated-input search on sum responses (CAT x CAT, MR x CAT, CAT x MR, NUM_ARRAY x CAT/MR, strands) with NaN sums and random insertions on rows and/or columns; every share is compared with sum / base-cell total recomputed from respondents; base shares sum to 1. Found the inserted-row / intersection denominators defect (fixed).",
+    "Differences and inserted cells with a NaN addend are not judged (statement silent / encoder-dependent).", "6 C15")
 NOT_BUILT = {}
 
 def main():
